@@ -837,6 +837,9 @@ MUTANTS = [
         "        }\n        return *this;\n    }\n\n    concurrent_priority_queue& operator=( concurrent_priority_queue&& other ) {")]),
     dict(name='c13-moved-from-queue-keeps-its-bookkeeping', prop='C13', clause='D5', edits=[('include/oneapi/tbb/concurrent_priority_queue.h',
         "    void reset_moved_from() {\n        data.clear();\n        mark = 0;\n        my_size.store(0, std::memory_order_relaxed);", "    void reset_moved_from() {\n        data.clear();")]),
+    dict(name='c05-seed5-is-divisible-adds-the-grain-to-begin', prop='C05', clause='D1', edits=[('include/oneapi/tbb/blocked_range.h',
+        "    bool is_divisible() const { return my_grainsize<size(); }",
+        "    bool is_divisible() const { return Value(my_begin + my_grainsize) < my_end; }")]),
     dict(name='c01-seed3-run-and-wait-handle-epilogue-on-exception-only', prop='C01', clause='D9', edits=[('include/oneapi/tbb/task_group.h',
         """            execute_and_wait(*acs::release(h), context(), m_wait_vertex.get_context(), context());
         }).on_completion([&] {""",
@@ -1822,6 +1825,9 @@ BENIGN = [
         "            if (static_cast<std::ptrdiff_t>(ticket - my_queue_representation->head_counter.load(std::memory_order_relaxed)) - static_cast<std::ptrdiff_t>(my_queue_representation->n_invalid_entries.load(std::memory_order_relaxed)) >= my_capacity) {")]),
     dict(name='c12-b-ordered-range-empty-by-iterators', prop='C12', edits=[('include/oneapi/tbb/detail/_concurrent_skip_list.h',
         "            return my_begin.my_node_ptr == my_end.my_node_ptr;", "            return my_begin == my_end;")]),
+    dict(name='c05-b-is-divisible-written-the-other-way-round', prop='C05', edits=[('include/oneapi/tbb/blocked_range.h',
+        "    bool is_divisible() const { return my_grainsize<size(); }",
+        "    bool is_divisible() const { return size() > my_grainsize; }")]),
     dict(name='c01-b-group-wait-epilogue-in-a-named-lambda', prop='C01', edits=[('include/oneapi/tbb/task_group.h',
         """        try_call([&] {
             d1::wait(m_wait_vertex.get_context(), context());
